@@ -7,8 +7,8 @@ NINE = ["df0", "df4", "df5", "df11", "df16", "tc11", "df18", "df20", "df21"]
 class C03(PropBase):
     id = "C03"
     corr_fields = ['df']
-    lean_modules = ["SqModel.Props.C03", "SqModel.Proofs.BridgeBits"]
-    extractors = ["trans_bits", "crc"]
+    lean_modules = ["SqModel.Props.C03", "SqModel.Proofs.BridgeBits", "SqModel.Proofs.BridgeTable"]
+    extractors = ["trans_bits", "crc", "trans"]
     rule = ("frames of the nine formats built from (format, random payload, address in {1, 2^24-1, 0, random}); get_icao and "
             "DF::from_message asked directly, compared with the address the frame was built from and with Spec.addressOf; "
             "interleaved histories of 2-4 aircraft with a dump after every frame: key set and every other row unchanged. "
